@@ -11,7 +11,8 @@ from fractions import Fraction
 from .poly import Poly, Lin, fn_atom, pmin, pmax, same, definitely_differ, \
     lower_bound, ONE
 from .values import AV, TOP, NONE, BOOL, INT, FLOAT, STR, ARR, LIST, TUPLE, \
-    DICT, EXT, GEN, NOCONST, from_const, join, join_all, join_dim
+    DICT, EXT, GEN, NOCONST, from_const, join, join_all, join_dim, \
+    SymKey, dict_key
 from .npcalls import CallsMixin
 from .npbuiltins import BuiltinsMixin
 
@@ -69,9 +70,11 @@ class Model(CallsMixin, BuiltinsMixin):
         detail = ''
         for x, y in zip(pa, pb):
             if x is None or y is None:
-                out.append(x if y is None or (y is not None and
-                                              y.as_int() == 1) else y
-                           if x is None else None)
+                # an untyped extent against 1 stays untyped; against any
+                # other extent the result is that extent
+                known = y if x is None else x
+                out.append(None if known is None or known.as_int() == 1
+                           else known)
                 if x is None and y is None:
                     status = 'unknown' if status == 'ok' else status
                 continue
@@ -473,6 +476,13 @@ class Model(CallsMixin, BuiltinsMixin):
                             y.src is not None and x.src[:3] == y.src[:3]:
                         out.orth = 'whiten'
                         out.src = x.src
+                    elif x.orth == 'cols' and len(x.dims) == 2 and \
+                            len(y.dims) == 1 and y.orth == 'invsing' and \
+                            x.src is not None and y.src is not None and \
+                            x.src[:3] == y.src[:3]:
+                        # U * (1 / w): the transposed whitening factor
+                        out.orth = 'whitenT'
+                        out.src = x.src
                     elif x.orth == 'cols' and len(y.dims) == 1 and \
                             y.orth in ('sing', 'sigma'):
                         out.orth = 'weighted'
@@ -709,11 +719,48 @@ class Model(CallsMixin, BuiltinsMixin):
             if b.k == 'dict' and a.has_const() and b.elem is None and \
                     b.keys is not None and b.label is None:
                 return BOOL((a.c in b.keys) == pos)
+            if b.k == 'dict' and b.elem is None and not b.keys and \
+                    b.label is None and not b.maybe_none:
+                return BOOL(not pos)    # nothing is in an empty dict
+            dk = dict_key(a) if b.k == 'dict' else None
+            if isinstance(dk, SymKey) and b.keys is not None:
+                if dk in b.keys and not b.keys[dk].maybe_none:
+                    return BOOL(pos)
+                if dk not in b.keys and b.elem is None and \
+                        b.label is None and not b.maybe_none:
+                    # generic position: different size expressions are
+                    # different keys (a memo table keyed by sizes is filled
+                    # for every distinct expression)
+                    return BOOL(not pos)
+            if b.k in ('list', 'tuple', 'set') and b.items is not None and \
+                    not b.items:
+                return BOOL(not pos)
             if b.k == 'dict' and a.has_const() and a.c in (b.keys or {}) \
                     and not b.keys[a.c].maybe_none:
                 return BOOL(pos)
             if b.k == 'str' and b.has_const() and a.has_const():
                 return BOOL((a.c in b.c) == pos)
+            return BOOL()
+        if isinstance(op, (ast.Eq, ast.NotEq)) and \
+                a.k in ('list', 'tuple') and a.k == b.k and \
+                a.items is not None and b.items is not None:
+            # sequences compare element-wise: equal when every pair is
+            # known equal, different when the lengths or one pair differ
+            pos = isinstance(op, ast.Eq)
+            if len(a.items) != len(b.items):
+                return BOOL(not pos)
+            verdict = True
+            for x, y in zip(a.items, b.items):
+                if x.k in ('arr', 'top') or y.k in ('arr', 'top'):
+                    verdict = None
+                    break
+                t = I.truth(self.compare(ast.Eq(), x, y, node))
+                if t is False:
+                    return BOOL(not pos)
+                if t is None:
+                    verdict = None
+            if verdict is True:
+                return BOOL(pos)
             return BOOL()
         if a.k == 'arr' or b.k == 'arr':
             da = a.dims if a.k == 'arr' else ()
@@ -881,7 +928,8 @@ class Model(CallsMixin, BuiltinsMixin):
             # full reversal of the axes: an orthonormal-columns factor becomes
             # an orthonormal-rows one, for matrices and for 3-axis cores
             o = {'cols': 'rows', 'rows': 'cols', 'cols3': 'rows3',
-                 'rows3': 'cols3'}.get(base.orth, base.orth)
+                 'rows3': 'cols3', 'whitenT': 'whiten',
+                 'whiten': 'whitenT'}.get(base.orth, base.orth)
             lay = None
             if base.lay is not None:
                 lay = tuple(reversed(base.lay))
